@@ -9,7 +9,7 @@ framing and txtorcon) tells the harness which stream item each line belongs to, 
 expected listener set is snapshotted exactly when an event completes.
 Oracle: reference listener model + C01's reply oracle + SETEVENTS bookkeeping.
 """
-from .. import ctl, gen
+from .. import contracts, ctl, gen
 from ..refs import reply as R
 from . import c01
 
@@ -414,11 +414,21 @@ def run_case(case, rec):
     if not h.desync and got != h.expected_setevents:
         rec.violation("setevents-mismatch", "general",
                       {"written": [sorted(x) for x in got], "expected": [sorted(x) for x in h.expected_setevents]}, case)
+    contracts.drain(rec, case)
     rec.case(case, nontrivial=any(h.snap[j].get("expected") for j in done))
     rec.seen("interleaving_signatures", "".join(t[0] for t in h.trace)[:100])
 
 
 def run_shard(spec, rec):
+    if int(spec.get("shard", 0)) % 4 == 0:      # contracts on a quarter of the shards (cost ~3x)
+        contracts.install_protocol()
+    try:
+        _run_shard(spec, rec)
+    finally:
+        contracts.report(rec)
+
+
+def _run_shard(spec, rec):
     c01.install_fsm_tracer(rec)
     for i in range(spec["n"]):
         rnd = gen.rnd_for(spec["seed"], "C02", spec["shard"], i)
@@ -429,6 +439,7 @@ def run_shard(spec, rec):
 
 
 def replay(case, rec):
+    contracts.install_protocol()
     run_case(case, rec)
 
 
